@@ -276,6 +276,23 @@ Proof.
   cbn [expect append Ascii.eqb Bool.eqb]. reflexivity.
 Qed.
 
+(* std::complex: "(re,im)" *)
+Definition print_complex (z : Q * Q) : string := "(" ++ pn (fst z) ++ "," ++ pn (snd z) ++ ")".
+Theorem parse_print_complex z rest : parse_complex (print_complex z ++ rest) = Some (z, rest).
+Proof.
+  destruct z as [re im]. unfold print_complex; cbn [fst snd]. rewrite !app_assoc_s.
+  change ("(" ++ pn re ++ "," ++ pn im ++ ")" ++ rest) with (String "("%char (pn re ++ ("," ++ (pn im ++ (")" ++ rest))))).
+  unfold parse_complex. cbn [skip_ws is_ws].
+  rewrite (pn_roundtrip re ("," ++ (pn im ++ (")" ++ rest)))) by (cbn; tauto).
+  cbn [append skip_ws is_ws].
+  rewrite (pn_roundtrip im (String ")"%char rest)) by (cbn; tauto).
+  cbn [skip_ws is_ws]. reflexivity.
+Qed.
+(* Vector<complex> *)
+Theorem parse_print_vector_of_complex x t rest :
+  parse_vec (Q * Q) parse_complex (length (x :: t)) (print_vec (Q * Q) print_complex (x :: t) ++ rest) = Some (x :: t, rest).
+Proof. apply parse_print_vec. intros z r _. apply parse_print_complex. Qed.
+
 (* Vector<Estimate>: same value and same standard error for every element, any length *)
 Theorem parse_print_vector_of_estimates x t rest :
   parse_vec (Q * Q) parse_estimate (length (x :: t)) (print_vec (Q * Q) print_estimate (x :: t) ++ rest) = Some (x :: t, rest).
